@@ -196,3 +196,16 @@ Section EquivClone.
     destruct (clone_go cfg ncap v w (Z.to_nat l2) 0 l2 s5) as [[u'| | | | |] s6]; cbv [after_loopC]; try reflexivity.
   Qed.
 End EquivClone.
+
+(* The model has no operation for `clone_from`: it relies on the crate defining `clone` only, so that
+   `a.clone_from(&b)` is core's default `*a = b.clone()` (drop of the old value + clone, both modelled).
+   Re-proved on every run against the signature table regenerated from the source (Gen/Facts.v): the
+   only methods of `impl Clone` blocks in the crate are the two `clone`s (MiniVec, IntoIter).  A hand-written
+   `clone_from` (seeded change C12_6) breaks this obligation. *)
+From MV Require FactsDef.
+From MV.Gen Require Facts.
+Lemma clone_surface :
+  map (fun f => (FactsDef.s_owner f, FactsDef.s_name f))
+      (filter (fun f => String.eqb (FactsDef.s_trait f) "Clone") Facts.sigs)
+  = [("MiniVec", "clone"); ("IntoIter", "clone")].
+Proof. vm_compute. reflexivity. Qed.
